@@ -68,6 +68,7 @@ ACTIONS = ['addToHead', 'addToTail', 'addBefore', 'addAfter', 'addReplace', 'hea
            'h', 't', 'b', 'a', 'r']
 CFG0 = dict(client=0, logins=2, nbuf=8, ncb=8, nab=12, initnode=1000)
 CFG1 = dict(client=1, logins=2, nbuf=8, ncb=8, nab=12, initnode=1000)
+CFGZ = dict(client=0, logins=2, nbuf=8, ncb=8, nab=8, initnode=1000, io=0)     # no hardware channels: audio bus 0 is an ordinary id
 CFGT = dict(client=1, logins=2, nbuf=4, ncb=4, nab=8, initnode=1000)      # two addresses per client and space
 CFGW = dict(client=1, logins=2, nbuf=6, ncb=6, nab=10, initnode=1000, nodestart=(1 << 26) - 2)   # node ids wrap
 
@@ -350,6 +351,28 @@ def fam_big(thorough):
     return hs
 
 
+def fam_flush_fails():
+    """bind blocks whose FLUSH fails: a command with an argument the encoder refuses (int outside int32 in set(), a
+    pathlib.Path file name in Buffer.read()) is collected among 0..2 good commands; the exit raises, nothing of the block
+    is sent, and the commands that follow - outside and in a new block - reach the wire.  Also the refusal outside a block."""
+    hs = []
+    good = [op('set', h=4, a=[ts('amp'), tf(4)]), op('synth', **{'def': 'd'}, tk='obj', t=1, act='addToHead', a=[]),
+            op('b_zero', h=3, cm='none'), op('run', h=1, n=[0])]
+    bads = [op('bad', h=4, n=[0]), op('bad', h=1, n=[0]), op('bad', h=3, n=[1])]
+    after = [op('run', h=4, n=[1]), op('bind', body=[op('set', h=4, a=[ts('x'), ti(1)]), op('free', h=1)], raise_at=-1),
+             op('cbus', n=[1]), op('free', h=4)]
+    for bad in bads:
+        hs.append(PRE_NODE + [bad] + after)
+        for k in range(3):
+            for pre in itertools.product(good, repeat=k):
+                for pos in range(k + 1):
+                    body = list(pre[:pos]) + [bad] + list(pre[pos:])
+                    hs.append(PRE_NODE + [op('bind', body=body, raise_at=-1)] + after)
+        hs.append(PRE_NODE + [op('bind', body=[good[0], bad, good[3]], raise_at=2)] + after)       # body raises after the bad one
+        hs.append(PRE_NODE + [op('bind', body=[bad], raise_at=-1), op('bind', body=[bad, good[0]], raise_at=-1)] + after)
+    return hs
+
+
 def has_sync(h):
     return any(o['op'] == 'sync' or (o['op'] == 'bigbind' and o['n'][1] > 0) or any(i['op'] == 'sync' for i in o.get('body', [])) for o in h)
 
@@ -530,7 +553,7 @@ def run(ctx):
     # 1. design: the expectations of the spec are well-typed per the command table, mention only known ids, and
     #    bind() is all-or-nothing, for every history of the bounded model
     acts = ('NewSynth', 'Replace', 'NewGroup', 'NodeCmd', 'FreeNode', 'NewBuffer', 'Consecutive', 'FreeBuffer',
-            'FreeAllBuffers', 'BufferCmd', 'NewBus', 'FreeBus', 'BusCmd', 'Sync', 'BindEnter', 'BindExit', 'BindRaise')
+            'FreeAllBuffers', 'BufferCmd', 'NewBus', 'FreeBus', 'BusCmd', 'Bad', 'Sync', 'BindEnter', 'BindExit', 'BindRaise')
     # vacuity guard: TLC's -coverage runs out of memory on this module, so a small run prints every action it takes
     r = ctx.model_check('ServerCmdModel', 'ServerCmdModel_cover.cfg', coverage=False, workers=1, timeout=600,
                         label='vacuity guard (2 calls, actions printed)')
@@ -559,7 +582,8 @@ def run(ctx):
             ('buffers', fam_buffers(5 if thorough else 4)), ('buffer-cmds', fam_buffer_commands()),
             ('buses', fam_buses(5 if thorough else 4)), ('bus-cmds', fam_bus_commands()),
             ('bind', fam_bind(3 if thorough else 2)), ('bind-sync', fam_sync(4 if thorough else 3)),
-            ('bus-args', fam_bus_args()), ('big-blocks', fam_big(thorough))]
+            ('bus-args', fam_bus_args()), ('big-blocks', fam_big(thorough)),
+            ('flush-fails', fam_flush_fails())]
     cases = []
     famcount = {}
     for name, hs in fams:
@@ -567,7 +591,9 @@ def run(ctx):
         for k, h in enumerate(hs):
             cases.append(dict(cfg=CFG0 if (k % 3) else CFG1, hist=h))
             if name in ('buffers', 'buses'):
-                cases.append(dict(cfg=CFGT, hist=h))       # two addresses per client: ids must come back on free
+                cases.append(dict(cfg=CFGT, hist=h))
+            if name == 'bus-args' or (name == 'buses' and k % 2 == 0):
+                cases.append(dict(cfg=CFGZ, hist=h))       # audio-bus space starting at index 0 (no hardware channels)       # two addresses per client: ids must come back on free
     for h in fam_creation()[:40] + fam_bind(1):
         cases.append(dict(cfg=CFGW, hist=h))            # node ids across the 2^26 wrap
     rnd = random.Random(ctx.seed)
@@ -577,7 +603,9 @@ def run(ctx):
     traces = run_cases(ctx, cases, 'nrt')
     # RT mode: same objects on the UDP interface (send captured, nothing leaves the process)
     step = 1 if thorough else 4
-    rt_cases = [c for k, c in enumerate(cases) if k % step == 0 or has_sync(c['hist'])]     # sync only acts in RT
+    def has_bad(h):
+        return any(o['op'] == 'bad' or any(i['op'] == 'bad' for i in o.get('body', [])) for o in h)
+    rt_cases = [c for k, c in enumerate(cases) if k % step == 0 or has_sync(c['hist']) or has_bad(c['hist'])]     # sync only acts in RT
     rt_traces = run_cases(ctx, rt_cases, 'rt')
     judge(ctx, [(cases, traces, 'nrt'), (rt_cases, rt_traces, 'rt')])
     ctx.cov['evaluations'] += sum(len(t['ev']) for t in traces) + sum(len(t['ev']) for t in rt_traces)
